@@ -3,6 +3,7 @@
 From Coq Require Import ZArith List Bool Arith Permutation.
 From HV Require Import Ord ListX Sprout SproutFacts Select SelectFacts FilterFacts.
 From HV Require GenOrder GenEquivOrder F64 WMonad.
+From HV Require GenCma GenEquivCma.
 Import ListNotations.
 Local Open Scope Z_scope.
 
@@ -49,3 +50,12 @@ Theorem C13_translated_individual_gt_asymmetric mx (a b : WMonad.F) : F64.fis_na
   GenOrder.gen_ind_gt mx a b = true -> GenOrder.gen_ind_gt mx b a = false.
 Proof. exact (GenEquivOrder.ind_gt_asymmetric mx a b). Qed.
 Print Assumptions C13_translated_individual_gt_asymmetric.
+
+(* CMA-ES minimises what it is told: the values CMADeme hands to tell() (Gen/GenCma.v, translated from _values_for_cma; the driver translator
+   requires tell() to receive them for the deme's most recent generation) order the individuals exactly as the problem does, in both
+   directions — told(i) < told(j) iff individual i is strictly better than individual j *)
+Theorem C13_translated_cma_is_told_the_problems_order mx (fs : list WMonad.F) i j d : (i < length fs)%nat -> (j < length fs)%nat ->
+  F64.flt (nth i (GenCma.gen_values_for_cma mx fs) d) (nth j (GenCma.gen_values_for_cma mx fs) d) =
+  if mx then F64.flt (nth j fs d) (nth i fs d) else F64.flt (nth i fs d) (nth j fs d).
+Proof. exact (GenEquivCma.told_order_is_problem_order mx fs i j d). Qed.
+Print Assumptions C13_translated_cma_is_told_the_problems_order.
